@@ -77,7 +77,7 @@ static void run_trace_header(int argc, char **argv) {
         CC_SListConf c;
         TAG[k] = !strcmp(argv[3 + k], "conf") ? TAG_CONF : TAG_LIBC;
         set_conf(&c, TAG[k]);
-        enum cc_stat s = (TAG[k] == TAG_LIBC) ? cc_slist_new(&L[k]) : cc_slist_new_conf(&c, &L[k]);
+        enum cc_stat s = VF_OUT(L[k], (TAG[k] == TAG_LIBC) ? cc_slist_new(&L[k]) : cc_slist_new_conf(&c, &L[k]));
         if (s != CC_OK) { L[k] = NULL; dead = 1; }
         P(" %s", vf_stat(s));
     }
@@ -87,7 +87,7 @@ static void run_trace_header(int argc, char **argv) {
 static void out1_(enum cc_stat s, void *e) { P(" %s", vf_stat(s)); if (s == CC_OK) P(" %llu", U(e)); }
 /* the call must be sequenced before the out value is read */
 #define out1(call, e) do { enum cc_stat s_ = (call); out1_(s_, (e)); } while (0)
-#define derived(call, d) do { enum cc_stat s_ = (call); print_derived(s_, (d)); } while (0)
+#define derived(call, d) do { (d) = VF_SENT; enum cc_stat s_ = vf_out_check((call), (void**)&(d)); print_derived(s_, (d)); } while (0)
 
 static void run_iter(CC_SList *l, int argc, char **argv) {
     CC_SListIter it; void *e;
